@@ -63,7 +63,7 @@ func main() {
 		os.Exit(2)
 	}
 	cfg := &packages.Config{Mode: packages.LoadAllSyntax, Dir: os.Args[1], Env: append(os.Environ(), "GOFLAGS=-mod=mod")}
-	pkgs, err := packages.Load(cfg, pkgPaths...)
+	pkgs, err := packages.Load(cfg, "./...")
 	if err != nil {
 		fmt.Fprintln(os.Stderr, "load:", err)
 		os.Exit(1)
@@ -73,16 +73,24 @@ func main() {
 	}
 	prog, spkgs := ssautil.AllPackages(pkgs, ssa.InstantiateGenerics)
 	prog.Build()
+	// every package of the library's module is analysed (a change may add an internal package); its test-only and
+	// sample packages are left out
 	mine := map[*ssa.Package]bool{}
-	for _, p := range spkgs {
-		if p != nil {
+	for _, p := range prog.AllPackages() {
+		path := p.Pkg.Path()
+		if strings.HasPrefix(path, "github.com/goark/go-cvss") && !strings.HasSuffix(path, "/sample") {
 			mine[p] = true
 		}
 	}
+	_ = spkgs
 	// all functions of the analysed packages (methods, closures included)
 	funcs := []*ssa.Function{}
 	for f := range ssautil.AllFunctions(prog) {
-		if f.Pkg != nil && mine[f.Pkg] && len(f.Blocks) > 0 {
+		pk := f.Pkg
+		if pk == nil && f.Origin() != nil {
+			pk = f.Origin().Pkg // an instantiation of a generic function of the library
+		}
+		if pk != nil && mine[pk] && len(f.Blocks) > 0 {
 			funcs = append(funcs, f)
 		}
 	}
@@ -179,6 +187,32 @@ func analyse(f *ssa.Function, sums map[*ssa.Function]*summary, mine map[*ssa.Pac
 	s := sums[f]
 	before := len(s.params) + len(s.globals) + len(s.retFrom)
 	orig := map[ssa.Value]map[origin]bool{}
+	// what has been stored into each local variable (flow-insensitive): a load from the variable yields it
+	stored := map[*ssa.Alloc][]ssa.Value{}
+	rootAlloc := func(v ssa.Value) *ssa.Alloc {
+		for i := 0; i < 50; i++ {
+			switch x := v.(type) {
+			case *ssa.Alloc:
+				return x
+			case *ssa.FieldAddr:
+				v = x.X
+			case *ssa.IndexAddr:
+				v = x.X
+			default:
+				return nil
+			}
+		}
+		return nil
+	}
+	for _, b := range f.Blocks {
+		for _, ins := range b.Instrs {
+			if st, ok := ins.(*ssa.Store); ok {
+				if a := rootAlloc(st.Addr); a != nil {
+					stored[a] = append(stored[a], st.Val)
+				}
+			}
+		}
+	}
 	var originsOf func(v ssa.Value, depth int) map[origin]bool
 	add := func(dst map[origin]bool, src map[origin]bool) {
 		for o := range src {
@@ -210,6 +244,11 @@ func analyse(f *ssa.Function, sums map[*ssa.Function]*summary, mine map[*ssa.Pac
 		case *ssa.MakeClosure:
 			for _, b := range x.Bindings {
 				add(m, originsOf(b, depth+1))
+				if a := rootAlloc(b); a != nil { // a captured local variable: what it holds is reachable from the closure
+					for _, v := range stored[a] {
+						add(m, originsOf(v, depth+1))
+					}
+				}
 			}
 		case *ssa.FieldAddr:
 			add(m, originsOf(x.X, depth+1))
@@ -225,6 +264,13 @@ func analyse(f *ssa.Function, sums map[*ssa.Function]*summary, mine map[*ssa.Pac
 			add(m, originsOf(x.X, depth+1))
 		case *ssa.UnOp:
 			add(m, originsOf(x.X, depth+1))
+			if x.Op == token.MUL {
+				if a := rootAlloc(x.X); a != nil {
+					for _, v := range stored[a] {
+						add(m, originsOf(v, depth+1))
+					}
+				}
+			}
 		case *ssa.ChangeType:
 			add(m, originsOf(x.X, depth+1))
 		case *ssa.Convert:
@@ -353,13 +399,31 @@ func analyse(f *ssa.Function, sums map[*ssa.Function]*summary, mine map[*ssa.Pac
 					if c.IsInvoke() {
 						vals = append(vals, c.Value)
 					}
-					for _, a := range vals {
-						if !pointerLike(a.Type()) {
-							continue
+					if callee == nil || mayMutateArgs(callee) {
+						for _, a := range vals {
+							if !pointerLike(a.Type()) {
+								continue
+							}
+							for o := range originsOf(a, 0) {
+								if o.kind == "global" && escapesAddress(a) {
+									s.globals[o.name] = true
+								}
+								if o.kind == "param" && callee != nil {
+									s.params[o.idx] = true // a known mutator (sync.Once.Do, Mutex.Lock, sort.Sort, ...) applied to memory of a parameter
+								}
+							}
 						}
-						for o := range originsOf(a, 0) {
-							if o.kind == "global" && escapesAddress(a) {
-								s.globals[o.name] = true
+					}
+					// a closure of the library handed to code outside it (sync.Once.Do, sort.Slice, ...) is assumed to be called
+					for _, a := range vals {
+						if mc, ok := a.(*ssa.MakeClosure); ok {
+							if fn, ok := mc.Fn.(*ssa.Function); ok && sums[fn] != nil {
+								if sums[fn].params[1000] {
+									write(originsOf(mc, 0))
+								}
+								for g := range sums[fn].globals {
+									s.globals[g] = true
+								}
 							}
 						}
 					}
@@ -376,6 +440,32 @@ func analyse(f *ssa.Function, sums map[*ssa.Function]*summary, mine map[*ssa.Pac
 		}
 	}
 	return len(s.params)+len(s.globals)+len(s.retFrom) != before
+}
+
+// mayMutateArgs: functions outside the library that are known to write through their arguments or receiver, or to
+// synchronise on them (which presupposes shared mutable state).  Everything else outside the library (strings, strconv,
+// fmt, slices.Index / Contains / BinarySearch, sort.Search, errors, unicode, math, text/template reading its data, ...)
+// is taken to only read what it is given.
+func mayMutateArgs(f *ssa.Function) bool {
+	pkg := ""
+	if f.Pkg != nil {
+		pkg = f.Pkg.Pkg.Path()
+	} else if f.Origin() != nil && f.Origin().Pkg != nil {
+		pkg = f.Origin().Pkg.Pkg.Path()
+	}
+	switch pkg {
+	case "sync", "sync/atomic", "container/list", "container/heap", "container/ring", "math/rand", "math/rand/v2":
+		return true
+	}
+	name := f.Name()
+	for _, pre := range []string{"Sort", "Stable", "Reverse", "Insert", "Delete", "Compact", "Clip", "Grow", "Copy", "Clear", "Store", "Swap",
+		"Add", "CompareAndSwap", "Put", "Lock", "Unlock", "RLock", "RUnlock", "LoadOrStore", "LoadAndDelete", "Write", "Reset",
+		"Truncate", "ReadFrom", "Set", "Push", "Pop", "Shuffle", "Fill"} {
+		if strings.HasPrefix(name, pre) {
+			return true
+		}
+	}
+	return false
 }
 
 // escapesAddress: does the value denote memory of a package-level variable itself (its address, a
